@@ -37,6 +37,7 @@ fn main() {
         let res = emit::emit_unit(&db, &contracts, &u);
         std::fs::write(format!("{outdir}/{u}.exec.rs"), &res.exec).unwrap();
         std::fs::write(format!("{outdir}/{u}.mirror.rs"), &res.mirror).unwrap();
+        std::fs::write(format!("{outdir}/{u}.iface.rs"), &res.iface).unwrap();
         std::fs::write(format!("{outdir}/{u}.meta.json"), serde_json::to_string_pretty(&res.meta).unwrap()).unwrap();
         summary.insert(u, res.meta["functions"].as_array().map(|a| a.len()).unwrap_or(0));
     }
